@@ -181,7 +181,7 @@ def check(prop, tier, seed, replay=None):
     arg_model = C.driver(arg_lines)
     rep.notes['probes'] = dict(mapping_pairs=len(pairs), mdspan_pairs=len(mds), argument_packs=len(args))
     rep.notes['mandated_hard_error_pairs_skipped_for_instantiation'] = sum(1 for m in model if m.get('hard') == '1')
-    configs = ['gcc20-O2-ndebug-emul'] if not thorough else ['gcc20-O2-ndebug-emul', 'clang20-O0-assert', 'gcc23-O0-assert', 'gcc17-O2-assert']
+    configs = ['gcc20-O2-ndebug-emul', 'gcc17-O2-assert'] if not thorough else ['gcc20-O2-ndebug-emul', 'clang20-O0-assert', 'gcc23-O0-assert', 'gcc17-O2-assert', 'clang17-O0-ndebug-emul']      # C++17: the enable_if spellings of the constraints
     rep.notes['configs'] = configs
     for cfg in configs:
         cxx17 = '17' in cfg.split('-')[0]
